@@ -2,6 +2,10 @@ import VncModel.Enc.HextileProofs
 import VncModel.Enc.Containers
 import VncModel.Enc.ChoiceTiles
 import VncModel.Enc.PackLaw
+import VncModel.Enc.SplitProofs
+import VncModel.Enc.HextileBuf
+import VncModel.Enc.Pack24
+import VncModel.Enc.TightSearch
 import VncModel.Gen.C01
 /-!
 # C01 — Lossless encodings reproduce the server framebuffer pixel-exactly
@@ -27,12 +31,19 @@ Property theorems only; models and lemmas live in `VncModel/Enc/*`.
 No theorem of this file is `_partial` any more (the bit packing of packed-palette rows, formerly
 assumed as `PackLaw`, is proved in `Enc/PackProofs.lean` + `Enc/PackLaw.lean`).
 
+Tight without JPEG (`Enc/Tight.lean`, `TightProofs`, `TightDecode`, `Pack24`, `TightSplit`,
+`TightSearch`): faithful model of `SendSubrect` (`FillPalette`/`PaletteInsert`, solid / mono / indexed /
+full colour, `Pack24`, `CompressData` with the < 12 bytes rule and the level-0 "no zlib" control value,
+compact length, stream ids), of `SendRectSimple`, and of the solid-area search; theorems
+`server_tight_subrect_decodes`, `tpixel_law_plain`, `tpixel_law_pack24`, `tight_simple_split_tiles`,
+`tight_plan_tiles`, `tight_plan_fills_are_solid`, `tight_fill_piece_decodes`.
+
 NOT covered by any theorem (validated per run only, see `partial` in the evidence):
-* Tight (all sub-encodings), TightPng, Ultra (LZO), and the lossy variants (Tight-JPEG, ZYWRLE)
-  have NO encoder model: the real output of every run is decoded by an independent decoder and by
-  the Lean Tight/Ultra container decoder and compared with the pre-encode snapshot.
-* CoRRE/Zlib/Ultra rectangle *splitting* is modelled and compared per run; that the pieces tile the
-  rectangle is checked per run, not proved.
+* TightPng's PNG rectangles, Tight-JPEG, ZYWRLE, and the LZO / zlib / JPEG / PNG codecs themselves
+  (parameters with explicit laws `ZLaw`, `LzoLaw`).
+* The faithful solid-area search (`tightRect`) is compared with the wire on every run; it is not
+  proved to be an instance of `planPieces` — instead `tight_plan_tiles` / `tight_plan_fills_are_solid`
+  hold for EVERY outcome such a search can have.
 * ZRLE's CPIXEL rule: the models use the rule of the code (`serverCPix`, no depth test); the RFC's
   rule is `Spec.PixFmt.cpix` (known finding `cpixel-depth`).
 -/
@@ -67,6 +78,15 @@ theorem consts_match_code_encodings :
     VncModel.Gen.C01.rfbEncodingUltra = encUltra ∧ VncModel.Gen.C01.rfbEncodingZRLE = encZRLE ∧
     VncModel.Gen.C01.rfbEncodingTightPng = encTightPng ∧
     VncModel.Gen.C01.rfbEncodingLastRect = encLastRect := by decide
+
+theorem consts_match_code_tight :
+    VncModel.Gen.C01.TIGHT_MAX_RECT_SIZE = tightMaxSize ∧ VncModel.Gen.C01.TIGHT_MAX_RECT_WIDTH = tightMaxW ∧
+    VncModel.Gen.C01.MIN_SPLIT_RECT_SIZE = 4096 ∧ VncModel.Gen.C01.MIN_SOLID_SUBRECT_SIZE = 2048 ∧
+    VncModel.Gen.C01.MAX_SPLIT_TILE_SIZE = 16 ∧
+    VncModel.Gen.C01.tightConfRows = [[6, 0, 0, 0, 4, 24], [32, 1, 1, 1, 96, 24]] ∧
+    tightConfOf true = ⟨6, 0, 0, 0, 4⟩ ∧ tightConfOf false = ⟨32, 1, 1, 1, 96⟩ ∧
+    VncModel.Gen.C01.rfbTightFill = 8 ∧ VncModel.Gen.C01.rfbTightNoZlib = 10 ∧
+    VncModel.Gen.C01.rfbTightExplicitFilter = 4 ∧ VncModel.Gen.C01.rfbTightFilterPalette = 1 := by decide
 
 /-! ## Raw and the `updateBuf` flush discipline -/
 
@@ -205,6 +225,96 @@ theorem update_decodes_rect_by_rect (dec : RectHdr → Dec (List Pixel))
       some (rs.map (fun r => (r.1, r.2.2)), rest) :=
   decodeRectSeq_concat dec rs rest h
 
+/-! ## rectangle splitting: the pieces tile the rectangle -/
+
+/-- CoRRE: `cover pieces p` (number of pieces containing point `p`) is 1 inside the rectangle and 0
+outside — the pieces are inside, disjoint and cover it -/
+theorem corre_pieces_tile (mw mh : Nat) (hmw : 1 ≤ mw) (hmh : 1 ≤ mh) (f x y w h px py : Nat)
+    (hf : w + h < f) :
+    cover (correSplit mw mh f x y w h) px py = if InTile ⟨x, y, w, h⟩ px py then 1 else 0 :=
+  correSplit_cover mw mh hmw hmh f x y w h px py hf
+
+/-- Zlib and Ultra (same row loop): the row pieces tile the rectangle, and the loop always advances -/
+theorem zlib_ultra_pieces_tile (x w : Nat) (hw : 0 < w) (f y h px py : Nat) (hf : h ≤ f) :
+    cover (zlibSplit x w (zlibMaxSize w / w) f y h) px py = if InTile ⟨x, y, w, h⟩ px py then 1 else 0 :=
+  zlibSplit_cover x w (zlibMaxSize w / w) (zlibMaxLines_pos w hw) f y h px py hf
+
+/-- Tight `SendRectSimple`: grid pieces tile the rectangle and respect the 2048 / 65536 limits -/
+theorem tight_simple_split_tiles (x y w h px py : Nat) (hw : 0 < w) (hh : 0 < h) :
+    cover (simpleSplit x y w h) px py = (if InTile ⟨x, y, w, h⟩ px py then 1 else 0) ∧
+    ∀ t ∈ simpleSplit x y w h, 1 ≤ t.w ∧ 1 ≤ t.h ∧ t.w ≤ tightMaxW ∧ t.w * t.h ≤ tightMaxSize :=
+  ⟨simpleSplit_cover x y w h px py hw hh, simpleSplit_small x y w h hw hh⟩
+
+/-- Tight with LastRect: for EVERY outcome of the solid-area search (any choice tree) the pieces tile
+the rectangle -/
+theorem tight_plan_tiles (img : Nat → Nat → Pixel) (p : TPlan) (x y w h px py : Nat) (hw : 0 < w) (hh : 0 < h) :
+    pcover (planPieces img p x y w h) px py = ind x y w h px py :=
+  planPieces_cover img p x y w h px py hw hh
+
+/-- … and every piece sent as a solid fill really is of one colour, the one `SendSolidRect` transmits -/
+theorem tight_plan_fills_are_solid (img : Nat → Nat → Pixel) (p : TPlan) (x y w h : Nat) (r : TileRect)
+    (hr : TPiece.fill r ∈ planPieces img p x y w h) (px py : Nat) (hin : InTile r px py) :
+    img px py = img r.x r.y :=
+  planPieces_fill_solid img p x y w h r hr px py hin
+
+/-! ## Hextile `updateBuf` bound, Ultra container -/
+
+/-- the Hextile tile loop on the `updateBuf` model: the stream is the concatenation of the tiles
+(the bytes `server_hextile_decodes` is about) wherever the flushes fall, and `ublen` never exceeds
+`UPDATE_BUF_SIZE` — a tile never needs more than the reserve `1 + (2 + 16*16)*bpp` the code tests -/
+theorem hextile_updatebuf_bound (bpp W : Nat) (px : Array Pixel) (hb : 1 ≤ bpp)
+    (hres : hextileReserve bpp ≤ UBS) (tiles : List TileRect) (st : HexSrv) (u : UB) (hu : u.ublen ≤ UBS)
+    (hd : ∀ t ∈ tiles, t.w ≤ 16 ∧ t.h ≤ 16) :
+    (hexLoopUB bpp W px tiles st u).stream = u.stream ++ hextileTiles bpp W px tiles st ∧
+      (hexLoopUB bpp W px tiles st u).ublen ≤ UBS :=
+  hexLoopUB_spec bpp W px hb hres tiles st u hu hd
+
+/-- Ultra encoding: one piece, LZO as a parameter with the law `decompress (compress x) = x` -/
+theorem ultra_rect_decodes (L : LzoLaw) (g : Geometry) (bpp : Nat) (px : List Pixel) (rest : Bytes)
+    (hlen : px.length = g.w * g.h) (hpx : ∀ p ∈ px, PixOK bpp p) :
+    decodeUltra L.decompress g bpp (ultraPayload L bpp px ++ rest) = some (px, rest) :=
+  ultraRect_decodes L g bpp px rest hlen hpx
+
+/-! ## Tight without JPEG -/
+
+/-- **`server_tight_decodes`, one sub-rectangle**: the model of `SendSubrect` (palette analysis, the four
+senders, `CompressData` in its three forms, compact length, stream ids) decodes by `Spec.decodeTight`
+to the pixels; the zlib stream it used stays in sync.  `TPixLaw` is discharged by `tpixel_law_plain`
+and `tpixel_law_pack24`. -/
+theorem server_tight_subrect_decodes {σ τ : Type} (Z : ZLaw σ τ) (f : PixFmt) (lvl0 : Bool) (g : Geometry)
+    (px : List Pixel) (rest : Bytes) (ss : Nat → σ) (ts : Nat → τ)
+    (hsync : ∀ i, Z.Sync (ss i) (ts i))
+    (hlen : px.length = g.w * g.h) (hpos : 0 < g.w * g.h) (harea : g.w * g.h ≤ 65536)
+    (htp : ∀ p ∈ px, TPixLaw f p) (hts : f.tpix.size ≤ 4)
+    (hz : ∀ s d, (Z.deflate s d).1.length < 4194304) :
+    ∃ t', decodeTight tightCd (fun i z => (Z.inflate (ts i) z).map (·.1)) f g
+        (((tightSubrect f lvl0 g.w g.h px).wire Z (ss (tightSubrect f lvl0 g.w g.h px).stream)).1 ++ rest) =
+          some (px, rest) ∧
+      Z.Sync ((tightSubrect f lvl0 g.w g.h px).wire Z (ss (tightSubrect f lvl0 g.w g.h px).stream)).2 t' :=
+  tightSubrect_decodes Z f lvl0 g px rest ss ts hsync hlen hpos harea htp hts hz
+
+/-- TPIXEL law without `Pack24` (8/16 bpp, 32 bpp unless depth 24 with 8-8-8 maxima) -/
+theorem tpixel_law_plain (f : PixFmt) (p : Pixel) (hno : usePF24 f = false) (hp : PixOK f.bytespp p) :
+    TPixLaw f p := tpixLaw_plain f p hno hp
+
+/-- TPIXEL law with `Pack24`: 32 bpp, depth 24, 8-8-8, byte-aligned distinct shifts, either byte order -/
+theorem tpixel_law_pack24 (f : PixFmt) (hbpp : f.bpp = 32) (hd : f.depth = 24)
+    (hrm : f.rMax = 255) (hgm : f.gMax = 255) (hbm : f.bMax = 255)
+    (hrs : Sh8 f.rShift) (hgs : Sh8 f.gShift) (hbs : Sh8 f.bShift)
+    (h12 : f.rShift ≠ f.gShift) (h13 : f.rShift ≠ f.bShift) (h23 : f.gShift ≠ f.bShift)
+    (r g b : Nat) (hr : r < 256) (hg : g < 256) (hb : b < 256) :
+    TPixLaw f (pack24Pixel f r g b) :=
+  tpixLaw_pack24 f hbpp hd hrm hgm hbm hrs hgs hbs h12 h13 h23 r g b hr hg hb
+
+/-- a solid-fill piece of any plan decodes to the pixels of its area -/
+theorem tight_fill_piece_decodes (infl : Nat → Bytes → Option Bytes) (f : PixFmt) (img : Nat → Nat → Pixel)
+    (p : TPlan) (x y w h : Nat) (r : TileRect) (hr : TPiece.fill r ∈ planPieces img p x y w h)
+    (rest : Bytes) (hp : TPixLaw f (img r.x r.y)) :
+    decodeTight tightCd infl f ⟨r.w, r.h⟩ (u8 0x80 ++ tpixBytes f (img r.x r.y) ++ rest) =
+        some (List.replicate (r.w * r.h) (img r.x r.y), rest) ∧
+      ∀ px py, InTile r px py → img px py = img r.x r.y :=
+  ⟨decodeTight_fill infl f ⟨r.w, r.h⟩ (img r.x r.y) rest hp, planPieces_fill_solid img p x y w h r hr⟩
+
 /-! ## reference encoders: `decode (encodeWith choices P) = P` for ALL choices -/
 
 theorem decode_encodeWith_rre (c : RREChoice) (bpp : Nat) (g : Geometry) (px : List Pixel) (rest : Bytes)
@@ -259,6 +369,15 @@ example : serverHextile 1 ⟨2, 2⟩ [5, 5, 5, 6] = [2 + 8 + 4, 5, 6, 1, 0x11, 0
 
 /-- a ZRLE tile with three colours: packed palette, 2 bits per index, rows padded -/
 example : zrleTile (.full 1) 3 2 [4, 5, 6, 4, 4, 5] = [3, 4, 5, 6, 0x18, 0x04] := by decide +kernel
+
+/-- Tight: an 8×4 two-colour rectangle at level 1 is a mono rectangle on stream 1 (control 0x50, palette
+filter, 2 colours, background first, 1 bit per pixel, 4 data bytes < 12 hence sent bare) -/
+example : (tightSubrect ⟨8, 8, false, true, 7, 7, 3, 0, 3, 6⟩ false 8 4
+      ([5, 5, 9, 5, 5, 5, 5, 5] ++ List.replicate 24 5)).inflated =
+    [0x50, 1, 1, 5, 9, 0x20, 0, 0, 0] := by decide +kernel
+
+/-- the `Pack24` law's hypotheses are met by the usual little- and big-endian 8-8-8 formats -/
+example : Sh8 16 ∧ Sh8 8 ∧ Sh8 0 ∧ Sh8 24 := by unfold Sh8; decide
 
 /-- the zlib law is satisfiable (the identity "compressor") -/
 example : ZLaw Unit Unit :=
